@@ -19,7 +19,7 @@ RULE = ("stream expr-trees: seeded random expressions over plain, namespaced, po
 TRUSTED_BASE = ["sympy's StrPrinter for Add/Mul/Rational/Float (the base class of bartiq's printer)"]
 ASSUMPTIONS = ["numeric literals are compared to 15 significant digits (relative 1e-14) when a float is involved"]
 
-SYMS = ["x", "y", "a.b", "#p", "a.#q", "lambda", "in", "N_1", "#in", "b.c.#lambda"]     # (ports NAMED like reserved words too)
+SYMS = ["x", "y", "a.b", "#p", "a.#q", "lambda", "in", "N_1", "#in", "b.c.#lambda", "lambda_max", "prep.lambda_DF"]     # (ports NAMED like reserved words too)
 
 
 def gen(rng, depth):
@@ -60,7 +60,7 @@ def gen(rng, depth):
         return E.op("neg", a)
     if k == "f":
         # (now and then an uninterpreted function whose name ENDS like the parser's internal port marker)
-        return E.fun(rng.choice(["f", "f", "f", "NumPort", "ctrl.OutPort"]), a)
+        return E.fun(rng.choice(["f", "f", "f", "NumPort", "ctrl.OutPort", "lambda_of"]), a)
     if k == "g":
         return E.fun("g", a, b)
     if k == "builtin" and rng.random() < 0.5:
